@@ -540,61 +540,110 @@ func clauseReturnsError(info *types.Info, cc *ast.CaseClause) bool {
 
 func ruleDelegate(c *Ctx, names []string) {
 	p := c.P
+	// on SSA: the function makes exactly one call, to the method of the same name on
+	// &defaultPlenc with its own parameters in order, and every return hands back that
+	// call's results (or nil for an error that was just tested against nil). How the
+	// statement is spelled - temporaries, named results, p := &defaultPlenc - does not matter.
 	for _, name := range names {
-		fn := p.findFunc("plenc", "", name)
-		if fn == nil {
+		f := p.ssaFunc("plenc." + name)
+		if f == nil {
 			c.Oblige("T.delegate", false, token.NoPos, "plenc."+name, name, "package-level function not found", nil)
 			continue
 		}
-		info := fn.Pkg.TypesInfo
-		ok, why := false, ""
-		body := fn.Decl.Body.List
-		if len(body) == 1 {
-			var call *ast.CallExpr
-			switch s := body[0].(type) {
-			case *ast.ReturnStmt:
-				if len(s.Results) == 1 {
-					call, _ = ast.Unparen(s.Results[0]).(*ast.CallExpr)
+		ok, why := true, ""
+		var the *ssa.Call
+		ncalls := 0
+		for _, b := range f.Blocks {
+			for _, in := range b.Instrs {
+				call, isCall := in.(*ssa.Call)
+				if !isCall {
+					continue
 				}
-			case *ast.ExprStmt:
-				call, _ = s.X.(*ast.CallExpr)
+				ncalls++
+				the = call
 			}
-			if call != nil {
-				if sel, ok2 := call.Fun.(*ast.SelectorExpr); ok2 {
-					recvID, _ := sel.X.(*ast.Ident)
-					v, _ := info.Uses[recvID].(*types.Var)
-					if recvID != nil && v != nil && v.Name() == "defaultPlenc" && v.Parent() == fn.Pkg.Types.Scope() {
-						if sel.Sel.Name == name {
-							params := paramObjs(info, fn.Decl)
-							if len(params) == len(call.Args) {
-								ok = true
-								for i, a := range call.Args {
-									id, isID := ast.Unparen(a).(*ast.Ident)
-									if !isID || info.Uses[id] != params[i] {
-										ok = false
-										why = fmt.Sprintf("argument %d is not parameter %d", i, i)
-									}
-								}
-							} else {
-								why = "argument count differs"
-							}
-						} else {
-							why = "delegates to method " + sel.Sel.Name + ", not " + name
-						}
-					} else {
-						why = "receiver is not the package-level defaultPlenc"
+		}
+		switch {
+		case ncalls != 1:
+			ok, why = false, fmt.Sprintf("%d calls instead of one delegating call", ncalls)
+		default:
+			cal := the.Common().StaticCallee()
+			args := the.Common().Args
+			g, isG := stripAddr(args0(args)).(*ssa.Global)
+			switch {
+			case cal == nil || ssaFuncName(cal) != "plenc.Plenc."+name:
+				ok, why = false, "delegates to "+fmt.Sprint(cal)+", not to Plenc."+name
+			case !isG || g.Name() != "defaultPlenc":
+				ok, why = false, "receiver is not the package-level defaultPlenc"
+			case len(args)-1 != len(f.Params):
+				ok, why = false, "argument count differs"
+			default:
+				for i, prm := range f.Params {
+					if args[i+1] != ssa.Value(prm) {
+						ok, why = false, fmt.Sprintf("argument %d is not parameter %d", i, i)
 					}
 				}
-			} else {
-				why = "body is not a single delegating call"
 			}
-		} else {
-			why = "body is not a single statement"
+			if ok {
+				for _, b := range f.Blocks {
+					r, isRet := b.Instrs[len(b.Instrs)-1].(*ssa.Return)
+					if !isRet {
+						continue
+					}
+					for i, v := range r.Results {
+						good := false
+						switch x := v.(type) {
+						case *ssa.Extract:
+							good = x.Tuple == ssa.Value(the) && x.Index == i
+						case *ssa.Call:
+							good = x == the && len(r.Results) == 1
+						case *ssa.Const:
+							// "if err != nil { return err }; return nil"
+							good = x.IsNil() && isErrorType(x.Type())
+						case *ssa.Phi:
+							good = true
+							for _, e := range x.Edges {
+								ex, isEx := e.(*ssa.Extract)
+								if !(isEx && ex.Tuple == ssa.Value(the) && ex.Index == i) && e != ssa.Value(the) {
+									if k, isK := e.(*ssa.Const); !(isK && k.IsNil() && isErrorType(k.Type())) {
+										good = false
+									}
+								}
+							}
+						}
+						if !good {
+							ok, why = false, fmt.Sprintf("result %d is not the delegated call's result", i)
+						}
+					}
+				}
+			}
 		}
-		c.Oblige("T.delegate", ok, fn.Decl.Pos(), fn.Name(), name+" -> defaultPlenc."+name,
+		c.Oblige("T.delegate", ok, f.Pos(), "plenc."+name, name+" -> defaultPlenc."+name,
 			"package-level functions must behave exactly like the default instance: "+why, nil)
 	}
 	c.Floor("T.delegate", len(names))
+}
+
+func args0(a []ssa.Value) ssa.Value {
+	if len(a) == 0 {
+		return nil
+	}
+	return a[0]
+}
+
+// stripAddr: the global behind p := &defaultPlenc (the address of a global is the global value itself in SSA).
+func stripAddr(v ssa.Value) ssa.Value {
+	for i := 0; i < 3; i++ {
+		switch x := v.(type) {
+		case *ssa.ChangeType:
+			v = x.X
+		case *ssa.Convert:
+			v = x.X
+		default:
+			return v
+		}
+	}
+	return v
 }
 
 // constTable: e names a package-level array/slice variable of the function's
